@@ -198,6 +198,7 @@ type agg struct {
 	foreign             map[string]int
 	families, kinds     map[string]int
 	nodeTypes, funcs    map[string]int
+	cross               crossAgg
 	strategies          map[string]int
 	tasksHist           map[string]int
 	schedSigs           map[string]bool
@@ -297,6 +298,9 @@ func (a *agg) add(p string, r *run.Result, batchFrom uint64, spec func() *run.Sp
 	}
 	for _, v := range r.Violations {
 		a.violations = append(a.violations, &hit{res: r, v: v, batchFrom: batchFrom})
+	}
+	if p == "C05" {
+		a.cross.add(r, batchFrom)
 	}
 	if len(a.samples) < 3 {
 		a.samples = append(a.samples, sampleOf(r, spec()))
@@ -536,6 +540,15 @@ func doCheck(cfg propCfg) int {
 		outcomes = append(outcomes, o)
 	}
 
+	if *prop == "C05" {
+		for _, cf := range a.cross.crossCheck(cfg, 4) {
+			o := outcome{key: cf.v.Class + "|" + cf.v.Key, v: cf.v, replay: cf.replay, seed: cf.seed, reproduc: true}
+			o.known = known.match(cf.v)
+			outcomes = append(outcomes, o)
+			seen[o.key] = true
+		}
+	}
+
 	// ---- report ----
 	exit := 0
 	observed := map[string]bool{}
@@ -772,6 +785,9 @@ func doReplay(cfg propCfg) int {
 	}
 	if bytes.Contains(b, []byte(`"batch": true`)) || bytes.Contains(b, []byte(`"batch":true`)) {
 		return replayBatch(cfg, b)
+	}
+	if bytes.Contains(b, []byte(`"cross": true`)) || bytes.Contains(b, []byte(`"cross":true`)) {
+		return replayCross(cfg, b)
 	}
 	var spec run.Spec
 	if err := json.Unmarshal(b, &spec); err != nil {
